@@ -1,5 +1,6 @@
 """R for comp/Start.tla: turn a model behaviour into a real job, run it, extract the real history."""
 import json
+import os
 
 from common import read_trace, small
 
@@ -29,9 +30,12 @@ def behaviour_to_job(name, beh):
         {"id": "r", "op": "replicate", "repl": "one", "in": ["s"]},
         {"id": "k", "op": "sink", "kind": "collect_vec", "in": ["r"]},
     ]}
-    return {"id": name, "prog": prog, "cfg": {"mode": "local", "par": n}, "batch": "single",
+    job = {"id": name, "prog": prog, "cfg": {"mode": "local", "par": n}, "batch": "single",
             "trace": True, "keep": ["recv", "probe"], "gate": {"kind": "count_recv", "from_blocks": [0]},
             "hang_ms": 20000}
+    if os.environ.get("VERIF_FORCE_GATE_MS"):   # self-test knob: make the gates time out
+        job["gate_timeout_ms"] = int(os.environ["VERIF_FORCE_GATE_MS"])
+    return job
 
 
 def norm_el(el):
